@@ -1560,7 +1560,7 @@ class SQLiteCompiler(compiler.SQLCompiler):
             text += "\n LIMIT " + self.process(select._limit_clause, **kw)
         if select._offset_clause is not None:
             if select._limit_clause is None:
-                text += "\n LIMIT " + self.process(sql.literal(-1))
+                text += "\n LIMIT " + self.process(sql.literal(-1), **kw)
             text += " OFFSET " + self.process(select._offset_clause, **kw)
         else:
             text += " OFFSET " + self.process(sql.literal(0), **kw)
